@@ -137,6 +137,12 @@ class Interner:
 
 
 GLOBAL_S = Interner()
+# fixed registration order => codes are identical in every process (replay files carry them)
+for _s in (['Pending', 'Ready', 'Creating', 'Running', 'Success', 'Failed', 'Error', 'Cancelled', 'pending', 'active',
+            'inactive', 'deleted', 'open', 'running', 'complete', 'activation_timeout', 'cancelled', 'deactivated', 'error',
+            'preempted', 'failed', 'success', 'ended', 'user1', 'bp1', 'tokA', 'tokB', 'tokC']
+           + [f'inst{i}' for i in range(1, 9)] + [f'att{i}' for i in range(1, 9)] + [f'ic{i}' for i in range(1, 5)]):
+    GLOBAL_S.code(_s)
 
 
 # ---- tables -----------------------------------------------------------------------------------------
